@@ -41,15 +41,29 @@ TS_PATTERN = (r'^(?P<year>\d{4})-(?P<month>\d{2})-(?P<day>\d{2}) '
               r'(?P<hours>\d{2}):(?P<minutes>\d{2}):(?P<seconds>\d{2})')
 
 
+Matcher = None
+
+
+def _matcher():
+    """ module-level class (picklable: tasks are pickled into workers) """
+    global Matcher
+    if Matcher is None:
+        from searchkit.constraints import TimestampMatcherBase
+
+        class _M(TimestampMatcherBase):
+            @property
+            def patterns(self):
+                return [TS_PATTERN]
+        _M.__name__ = _M.__qualname__ = 'Matcher'
+        _M.__module__ = __name__
+        Matcher = _M
+    return Matcher
+
+
 def make_objects(recipe):
     from searchkit import SearchDef, SequenceSearchDef, ResultFieldInfo
-    from searchkit.constraints import (SearchConstraintSearchSince,
-                                       TimestampMatcherBase)
-
-    class Matcher(TimestampMatcherBase):
-        @property
-        def patterns(self):
-            return [TS_PATTERN]
+    from searchkit.constraints import SearchConstraintSearchSince
+    Matcher = _matcher()
 
     cons = []
     for c in recipe.get('constraints', []):
